@@ -343,6 +343,32 @@ def fam_crash_order(rnd, n, crashmax=16):
     return res
 
 
+def fam_failwrite(rnd, n):
+    """A durable write fails (injected at write k of the run, k sampled over the whole run). The engine is fail-stop:
+    the plan runs in a child process, which must not act on the change that could not be stored; afterwards the
+    plan is recovered from what is on disk. Shapes are strictly sequential (concurrency 1, single-action groups,
+    no continuous checks) so that nothing can legitimately follow the failed write."""
+    res = []
+    for i in range(n):
+        nb = rnd.choice([1, 1, 2])
+        pg = {g: 1 for g in ("pre", "post", "deferred") if rnd.random() < 0.35}
+        blocks = []
+        for b in range(nb):
+            g = {x: 1 for x in ("pre", "post", "deferred") if rnd.random() < 0.3}
+            blocks.append(blk([rnd.choice([1, 2]) for _ in range(rnd.choice([1, 2]))], 1, rnd.choice([0, 1]), g=g))
+        sh = shape(blocks, pg=pg, retries=rnd.choice([0, 1]))
+        out = {}
+        if rnd.random() < 0.4:
+            a = rnd.choice(seq_actions(sh))
+            out[a] = ["tr", "ok"] if sh["retries"] else ["perm"]
+        # a plan of this size makes 20-60 writes; a k beyond the last write is an ordinary run
+        k = rnd.randint(1, 14) if rnd.random() < 0.5 else rnd.randint(1, 45)
+        s = scn(sh, "free", out, fn=True, tag="failwrite", latmax=100, waitms=5000, failat=k)
+        s["kind"] = "failwrite"
+        res.append(s)
+    return res
+
+
 def fam_api(rnd, n, races=6):
     """API histories: sequences over Submit/Start/Wait/Status/Plan on known and unknown ids,
     racing Starts, stale submissions."""
